@@ -95,6 +95,7 @@ package haproxy
 // and every non-empty answer is an accepted one
 //@ func (*dynUpdater).execDisableEndpoint
 //@   props C02 C12
+//@   at call cmdResponseOK#1 assert own-answer: $arg0 == "set server" && $arg1 == m
 //@   ensures once:   calls(ExecCmd) == 1
 //@   ensures ok:     result ==> last(ExecCmd).1 == nil && alltrue(RespOK)
 //@   loop 1 invariant seen: 0 <= $idx(1) && alltrue(RespOK) && calls(ExecCmd) == 1 && last(ExecCmd).1 == nil
@@ -103,6 +104,7 @@ package haproxy
 
 //@ func (*dynUpdater).execEnableEndpoint
 //@   props C02 C12
+//@   at call cmdResponseOK#1 assert own-answer: $arg0 == "set server" && $arg1 == m
 //@   ensures once:   calls(ExecCmd) == 1
 //@   ensures ok:     result ==> last(ExecCmd).1 == nil && alltrue(RespOK)
 //@   loop 1 invariant seen: 0 <= $idx(1) && alltrue(RespOK) && calls(ExecCmd) == 1 && last(ExecCmd).1 == nil
